@@ -233,7 +233,6 @@ pub proof fn lemma_roundtrip_plain(dst: u8, me: u8, mt: u8, body: Seq<u8>)
     ensures ({
         let p = packet_spec(dst, me, mt, body);
         &&& decode_accepts(p)
-        &&& !decode_known_panic(p)
         &&& c09_claimed(p)
         &&& p[8] & 0x7f == mt
         &&& payload_start(p) == 9
@@ -255,7 +254,6 @@ pub proof fn lemma_roundtrip_request(dst: u8, me: u8, iid: u8, cmd: u8, params: 
     ensures ({
         let p = packet_spec(dst, me, 0u8, ctrl_hdr_spec(true, false, iid, cmd) + params);
         &&& decode_accepts(p)
-        &&& !decode_known_panic(p)
         &&& c09_claimed(p)
         &&& p[8] & 0x7f == 0
         &&& payload_start(p) == 11
@@ -283,9 +281,8 @@ pub proof fn lemma_roundtrip_response(dst: u8, me: u8, iid: u8, cmd: u8, cc: u8,
     ensures ({
         let p = packet_spec(dst, me, 0u8, ctrl_hdr_spec(false, false, iid, cmd) + seq![cc] + fields);
         &&& hdr_ok(p) && pec_ok(p) && is_ctrl(p) && !is_req(p[9]) && p.len() >= 13 && p[10] == cmd && p[11] == cc
-        &&& (cc != 0 ==> !decode_accepts(p) && decode_err(p) == DecErr::Completion(cc) && !decode_known_panic(p))
+        &&& (cc != 0 ==> !decode_accepts(p) && decode_err(p) == DecErr::Completion(cc))
         &&& (cc == 0 ==> (decode_accepts(p) <==> (resp_len(cmd) > 0 ==> fields.len() == resp_len(cmd))))
-        &&& (cc == 0 ==> !decode_known_panic(p))
         &&& payload_start(p) == 12
         &&& p.subrange(12, p.len() - 1) =~= fields
         &&& !is_ctrl_request(p) && !is_answerable(p)
@@ -311,9 +308,8 @@ pub proof fn lemma_roundtrip_response_body(dst: u8, me: u8, body: Seq<u8>)
         let p = packet_spec(dst, me, 0u8, body);
         let cmd = body[1]; let cc = body[2];
         &&& hdr_ok(p) && pec_ok(p) && is_ctrl(p) && !is_req(p[9]) && p.len() >= 13 && p[10] == cmd && p[11] == cc && p[9] == body[0]
-        &&& (cc != 0 ==> !decode_accepts(p) && decode_err(p) == DecErr::Completion(cc) && !decode_known_panic(p))
+        &&& (cc != 0 ==> !decode_accepts(p) && decode_err(p) == DecErr::Completion(cc))
         &&& (cc == 0 ==> (decode_accepts(p) <==> (resp_len(cmd) > 0 ==> body.len() - 3 == resp_len(cmd))))
-        &&& (cc == 0 ==> !decode_known_panic(p))
         &&& payload_start(p) == 12
         &&& p.subrange(12, p.len() - 1) =~= body.subrange(3, body.len() as int)
         &&& !is_ctrl_request(p) && !is_answerable(p)
